@@ -211,6 +211,13 @@ func (e *Engine) validProgram(ch *kernel.Chooser, st *kernel.Stats) *gen.Program
 }
 
 func (e *Engine) Run(prop string, ch *kernel.Chooser, st *kernel.Stats) kernel.RunResult {
+	// in a third of the runs the host reads the fresh parser's error list before parsing (what is reported
+	// afterwards must not depend on that)
+	xutil.ReadErrorsFirst = ch.Bool(1, 3)
+	defer func() { xutil.ReadErrorsFirst = false }()
+	if xutil.ReadErrorsFirst {
+		st.Inc("probe.errors_read_before_parsing")
+	}
 	switch prop {
 	case "C12":
 		return e.runC12(ch, st)
